@@ -1,9 +1,14 @@
 import SudsModel.Xml.MultiRef
+import SudsModel.Lemmas.MultiRef
+import SudsModel.Xml.Prefix
+import Std.Data.String.ToNat
 /-!
 # C18 — Referenced (multiref) content decodes exactly like inlined content
-Model: `SudsModel/Xml/MultiRef.lean`. PARTIAL: one reference level and the locality facts are
-proved; decoding of arbitrarily nested out-lining is compared with the inlined reply on the real
-client (oracle) and `MultiRef.process` with the model (correspondence).
+Model: `SudsModel/Xml/MultiRef.lean`. The whole-reply statement is `outlined_body_decodes`: for every
+tree, every choice of the nodes moved out of line and every nesting of references, resolution gives
+back the inlined tree. What a schema-driven decoder then makes of the two equal trees is the same by
+construction; that the implementation's `MultiRef.process` is the modelled function is the
+correspondence, and the decoded values are compared on the real client (oracle).
 -/
 namespace Suds.Props.C18
 open Suds.Xml
@@ -79,7 +84,80 @@ theorem body_keeps_roots (fuel : Nat) (body : Elem) (ctx : Ctx) :
   cases body
   simp [processBody, Elem.setKids, Elem.kids, resolveKids_length]
 
+/-- **Out-of-line = inline, at any nesting depth** (one subtree, any catalogue that serves it): the
+writer replaces any set `S` of nodes - nested ones included - by `href` stubs and stores each
+node's attributes (+ `id`, + extras such as `soapenc:root`), text and out-lined children under
+its id; resolution returns the original tree, the out-lined nodes carrying the extras. -/
+theorem outline_resolve_roundtrip (S : Nat → Bool) (key : Nat → String) (extra : Nat → List Attr) (cat : Catalog)
+    (e : Elem) (fuel : Nat) (hf : e.size ≤ fuel) (ho : e.Outlinable S key extra cat) :
+    (e.outline S key).resolve cat fuel = e.marked S extra :=
+  resolve_outline S key extra cat e fuel hf ho
+
+/-- **The whole body.** `roots`: the reply content as it would be written inline. The writer emits
+the referrers followed by one out-of-line copy per out-lined node (any position works for the
+catalogue: it is built from all body children). With distinct node identities and distinct id
+strings, `build_catalog` + `update` over that body give back `roots` exactly (plus the extras). -/
+theorem outlined_body_decodes (S : Nat → Bool) (key : Nat → String) (extra : Nat → List Attr) (rid : Nat → Nat)
+    (hkey : ∀ i j, key i = key j → i = j) (roots : List Elem) (hid : (idsKids roots).Nodup)
+    (hp : PlainKids S extra roots) (fuel : Nat) (hf : sizeKids roots ≤ fuel) :
+    resolveKids
+      (buildCatalog (outlineKids S key roots ++ (outlinedKids S roots).map (fun o => mkRef S key extra (rid o.id) o)))
+      fuel (outlineKids S key roots) = markedKids S extra roots := by
+  rw [buildCatalog_body S key extra rid roots hp]
+  have hn := catOf_nodup S key extra rid hkey (outlinedKids S roots)
+    ((outlinedKids_ids_sublist S roots).nodup hid)
+  exact resolveKids_outline S key extra _ roots fuel hf
+    (outlinableKids_of_plain S key extra rid _ hn roots (fun _ h => h) hp)
+
+/-- Without extras the result is literally the inline content. -/
+theorem outlined_body_decodes_plain (S : Nat → Bool) (key : Nat → String) (rid : Nat → Nat)
+    (hkey : ∀ i j, key i = key j → i = j) (roots : List Elem) (hid : (idsKids roots).Nodup)
+    (hp : PlainKids S (fun _ => []) roots) (fuel : Nat) (hf : sizeKids roots ≤ fuel) :
+    resolveKids
+      (buildCatalog (outlineKids S key roots ++
+        (outlinedKids S roots).map (fun o => mkRef S key (fun _ => []) (rid o.id) o)))
+      fuel (outlineKids S key roots) = roots := by
+  rw [outlined_body_decodes S key (fun _ => []) rid hkey roots hid hp fuel hf, markedKids_nil]
+
+/-- `MultiRef.process` on such a body, when the referrers are its SOAP roots (the copies are marked
+`soapenc:root="0"`): the body is left with the inline content. -/
+theorem process_outlined_body (S : Nat → Bool) (key : Nat → String) (extra : Nat → List Attr) (rid : Nat → Nat)
+    (hkey : ∀ i j, key i = key j → i = j) (roots : List Elem) (hid : (idsKids roots).Nodup)
+    (hp : PlainKids S extra roots) (fuel : Nat) (hf : sizeKids roots ≤ fuel)
+    (bi : Nat) (bp : Option String) (bn : String) (bx : Option String) (bm : List (String × String))
+    (ba : List Attr) (bt : Option String) (ctx : Ctx)
+    (hroots : (outlineKids S key roots ++ (outlinedKids S roots).map (fun o => mkRef S key extra (rid o.id) o)).filter
+        (fun k => soaproot k ((bm, bx) :: ctx)) = outlineKids S key roots) :
+    (processBody fuel (.mk bi bp bn bx bm ba bt
+      (outlineKids S key roots ++ (outlinedKids S roots).map (fun o => mkRef S key extra (rid o.id) o))) ctx).kids =
+      markedKids S extra roots := by
+  simp only [processBody, Elem.kids, Elem.scope, Elem.nsp, Elem.expns, Elem.setKids, hroots]
+  exact outlined_body_decodes S key extra rid hkey roots hid hp fuel hf
+
 /-! ### Non-vacuity -/
+
+/-- nested out-lining: node 2 and, inside it, node 4 are moved out of line. -/
+def nestedRoots : List Elem :=
+  [.mk 1 none "resp" none [] [] none
+    [.mk 2 none "a" none [] [⟨none, "k", "v"⟩] none
+      [.mk 3 none "b" none [] [] (some "t") [], .mk 4 none "c" none [] [] (some "u") [.mk 5 none "d" none [] [] none []]],
+     .mk 6 none "e" none [] [] (some "w") []]]
+
+def nestedS (i : Nat) : Bool := i == 2 || i == 4
+
+example : PlainKids nestedS (fun _ => []) nestedRoots := by
+  simp [nestedRoots, PlainKids, Elem.Plain, nestedS]
+
+example : (outlinedKids nestedS nestedRoots).map Elem.id = [2, 4] := by decide
+
+/-- every hypothesis of `outlined_body_decodes_plain` holds for this reply with decimal id strings -/
+example : resolveKids
+    (buildCatalog (outlineKids nestedS Nat.repr nestedRoots ++
+      (outlinedKids nestedS nestedRoots).map (fun o => mkRef nestedS Nat.repr (fun _ => []) (100 + o.id) o)))
+    6 (outlineKids nestedS Nat.repr nestedRoots) = nestedRoots :=
+  outlined_body_decodes_plain nestedS Nat.repr (100 + ·) (fun _ _ h => Nat.repr_injective h) nestedRoots
+    (by decide) (by simp [nestedRoots, PlainKids, Elem.Plain, nestedS]) 6 (by decide)
+
 def bodyDemo : Elem :=
   .mk 1 none "Body" none [("enc", soapencUri)] [] none
     [.mk 2 none "resp" none [] [] none
